@@ -39,9 +39,9 @@ type C17Ver struct {
 
 type C17Case struct {
 	Vers   []C17Ver `json:"vers,omitempty"`
-	Refs   []int    `json:"refs,omitempty"`   // versions the target references, in listing order
+	Refs   []int    `json:"refs,omitempty"`     // versions the target references, in listing order
 	OneLn  bool     `json:"one_line,omitempty"` // all secret_ref values on one directive line
-	Direct string   `json:"direct,omitempty"` // "sign hmac <ref>" form instead of secret_ref: raw | env | env-unset
+	Direct string   `json:"direct,omitempty"`   // "sign hmac <ref>" form instead of secret_ref: raw | env | env-unset
 	Sel    string   `json:"sel,omitempty"`
 	SigHdr string   `json:"sig_hdr,omitempty"`
 	TsHdr  string   `json:"ts_hdr,omitempty"`
